@@ -24,7 +24,7 @@ macro_rules! opaque {
         impl Clone for $n { #[verifier::external_body] fn clone(&self) -> (r: Self) ensures r == *self { unimplemented!() } }
     )* } }
 }
-opaque!(DeliveryTag, Payload, AttachRest, SessionCtlTx, LinkFlow, TransactionId, AmqpError, SessionStopReason, Source, Symbol, SenderRelayFlowState, ReceiverRelayFlowState, ChanSendError);
+opaque!(DeliveryTag, Payload, AttachRest, SessionCtlTx, LinkFlowRest, TransactionId, AmqpError, SessionStopReason, Source, Symbol, SenderRelayFlowState, ReceiverRelayFlowState, ChanSendError);
 // bytes::Bytes as far as these functions may look at it: its length (R11)
 impl Payload {
     pub uninterp spec fn spec_len(&self) -> nat;
@@ -43,6 +43,9 @@ impl DeliveryState {
     pub fn is_terminal(&self) -> (r: bool) ensures r == self.spec_is_terminal() { unimplemented!() }
 }
 
+/// LinkFlow: the flags a relay may look at; the rest is one opaque field (R11)
+pub struct LinkFlow { pub echo: bool, pub drain: bool, pub rest: LinkFlowRest }
+impl Clone for LinkFlow { #[verifier::external_body] fn clone(&self) -> (r: Self) ensures r == *self { unimplemented!() } }
 pub struct Handle(pub u32);
 impl Clone for Handle { fn clone(&self) -> (r: Self) ensures r == *self { Handle(self.0) } }
 pub struct InputHandle(pub u32);
@@ -174,15 +177,19 @@ pub fn relay_handle_live(Ghost(handle_now): Ghost<Option<OutputHandle>>, output_
     requires handle_now == Some(*output_handle),     // [C11.handle.relay-answers-under-a-live-handle] the flow a relay writes in answer to the peer goes out under the handle the link STILL holds: after the link's detach has been sent the number may already belong to another link of the session (slab re-use), which the peer then credits with an answer that is not its own
 {}
 impl SenderRelayFlowState {
+    /// the flows applied to the link's flow state through this relay, in order
+    pub uninterp spec fn applied(&self) -> Seq<LinkFlow>;
     /// Producer::produce (unit PRODUCER): applies the receiver's flow to the sender's flow state and wakes a blocked send
     #[verifier::external_body]
-    pub fn produce(&mut self, flow: LinkFlow, output_handle: OutputHandle) -> (r: Option<LinkFlow>) { unimplemented!() }
+    pub fn produce(&mut self, flow: LinkFlow, output_handle: OutputHandle) -> (r: Option<LinkFlow>) ensures final(self).applied() == old(self).applied().push(flow) { unimplemented!() }
 }
 impl ReceiverRelayFlowState {
+    pub uninterp spec fn applied(&self) -> Seq<LinkFlow>;
     /// LinkFlowState<ReceiverMarker>::on_incoming_flow (unit LINKFLOW) as called by the relay, i.e. by the SESSION task at the moment the flow frame arrives
     #[verifier::external_body]
     pub fn on_incoming_flow(&mut self, flow: LinkFlow, output_handle: OutputHandle, Ghost(unconsumed): Ghost<nat>) -> (r: Option<LinkFlow>)
         requires unconsumed == 0,       // [C09.flow.in-order-with-queued-transfers] the sender's delivery-count is taken over only in wire order with its transfers: while deliveries that preceded the flow on the wire still wait in the link's queue (they are counted by recv() later), adopting the flow's delivery-count counts them twice -- the receiver then reports a delivery-count ahead of the sender's, grants credit the sender cannot use (stall) or enforces a limit the sender does not see
+    ensures final(self).applied() == old(self).applied().push(flow),
     { unimplemented!() }
 }
 /// Attach: only the field send_attach_inner reads (R11)
@@ -253,6 +260,8 @@ impl LinkRelay<OutputHandle> {
         let ghost unconsumed: nat = arbitrary();      // deliveries this relay has already forwarded into the link's queue which the link has not counted yet (ReceiverLink::on_complete_transfer -> consume runs in the application's recv())
 //@@ spec
     ensures r is Ok,
+        *old(self) is Receiver ==> *final(self) is Receiver && final(self)->Receiver_flow_state.applied() == old(self)->Receiver_flow_state.applied().push(flow),   // [C09.relay.every-sender-flow-reaches-the-link] EVERY flow of the sender -- with or without echo, with or without drain -- is applied to the receiving link's flow state: that is how the link learns the sender's delivery-count (e.g. after a drain the sender advances it and says so in a flow that asks for no echo)
+        *old(self) is Sender ==> *final(self) is Sender && final(self)->Sender_flow_state.applied() == old(self)->Sender_flow_state.applied().push(flow),           // [C08.relay.every-receiver-flow-reaches-the-link] every flow of the receiver is applied to the sending link's flow state: the credit it grants (or takes back) is the credit the link sends by
 //@@ end
 
 //@@ fn file=fe2o3-amqp/src/link/mod.rs impl=`impl LinkRelay<OutputHandle>` name=on_incoming_transfer
